@@ -255,7 +255,8 @@ class Rewriter:
                 if rest + 2 < hi and st[rest].s == '.' and st[rest + 1].s == 'add' and st[rest + 2].s == '(':
                     c = match_close(st, rest + 2)
                     if c + 1 == hi:
-                        return x, self.rw(rest + 3, c)
+                        e_hi = c - 1 if st[c - 1].s == ',' else c
+                        return x, self.rw(rest + 3, e_hi)
                 return None
         return None
 
